@@ -34,7 +34,8 @@ def gen_sds(rng, ti, n_in, n_out, rich):
     ins, outs = list(), list()
     for k in range(n_in):
         name = 'in_%d_%d.dat' % (ti, k)
-        form = rng.choice(['bare', 'gt', 'dict', 'dict', 'dict_notgt']
+        form = rng.choice(['bare', 'gt', 'gtgt', 'lt', 'ltlt', 'dict', 'dict',
+                           'dict_notgt']
                           if rich else ['bare', 'dict'])
         action = rng.choice([rp.TRANSFER, rp.TRANSFER, rp.COPY, rp.LINK,
                              rp.MOVE, rp.TARBALL] if rich else [rp.TRANSFER])
@@ -51,7 +52,7 @@ def gen_sds(rng, ti, n_in, n_out, rich):
         if form in ('bare', 'dict_notgt'):
             sd['tgt_name'] = name
             sd['tgt_schema'] = 'rel'
-        if form in ('bare', 'gt'):
+        if form in ('bare', 'gt', 'gtgt', 'lt', 'ltlt'):
             sd['action'] = rp.TRANSFER
             sd['src_space'] = 'client'
             sd['tgt_schema'] = 'rel'
@@ -60,8 +61,8 @@ def gen_sds(rng, ti, n_in, n_out, rich):
         ins.append(sd)
     for k in range(n_out):
         name = 'out_%d_%d.dat' % (ti, k)
-        form = rng.choice(['bare', 'lt', 'dict', 'dict'] if rich
-                          else ['bare', 'dict'])
+        form = rng.choice(['bare', 'lt', 'ltlt', 'gt', 'gtgt', 'dict', 'dict']
+                          if rich else ['bare', 'dict'])
         action = rng.choice([rp.TRANSFER, rp.TRANSFER, rp.COPY, rp.MOVE]
                             if rich else [rp.TRANSFER])
         sd = {'form': form, 'action': action, 'name': name,
@@ -69,7 +70,7 @@ def gen_sds(rng, ti, n_in, n_out, rich):
               'tgt_space': 'client', 'missing': rng.random() < 0.1}
         if action in (rp.COPY, rp.MOVE):
             sd['tgt_space'] = rng.choice(['pilot', 'session'])
-        if form in ('bare', 'lt'):
+        if form in ('bare', 'lt', 'ltlt', 'gt', 'gtgt'):
             sd['action'] = rp.TRANSFER
             sd['tgt_space'] = 'client'
             if form == 'bare':
@@ -270,6 +271,12 @@ def make_directives(w, uid, t):
             ins.append(src)
         elif sd['form'] == 'gt':
             ins.append('%s > %s' % (src, tgt))
+        elif sd['form'] == 'gtgt':
+            ins.append('%s >> %s' % (src, tgt))
+        elif sd['form'] == 'lt':
+            ins.append('%s < %s' % (tgt, src))
+        elif sd['form'] == 'ltlt':
+            ins.append('%s<<%s' % (tgt, src))
         elif sd['form'] == 'dict_notgt':
             ins.append({'source': src, 'action': sd['action']})
         else:
@@ -298,6 +305,12 @@ def make_directives(w, uid, t):
             outs.append(src)
         elif sd['form'] == 'lt':
             outs.append('%s < %s' % (tgt, src))
+        elif sd['form'] == 'ltlt':
+            outs.append('%s << %s' % (tgt, src))
+        elif sd['form'] == 'gt':
+            outs.append('%s>%s' % (src, tgt))
+        elif sd['form'] == 'gtgt':
+            outs.append('%s >> %s' % (src, tgt))
         else:
             outs.append({'source': src, 'target': tgt,
                          'action': sd['action']})
